@@ -1329,6 +1329,9 @@ impl VectorEngine {
     /// Returns an error if index building fails.
     pub fn build_and_cache_index(&self, config: HNSWConfig) -> Result<()> {
         let (index, keys) = self.build_hnsw_index(config)?;
+        // The cached mapping holds storage keys (search_similar strips the prefix once), so a
+        // user key that itself starts with "emb:" is reported unchanged.
+        let keys = keys.iter().map(|k| Self::embedding_key(k)).collect();
         self.cache_hnsw_index("_default", Arc::new(index), keys);
         Ok(())
     }
